@@ -61,7 +61,9 @@ pub fn rank<const N: usize, const K: usize>() {
         assert!(r1.is_none() && r0.is_none(), "C17: rank beyond the end must be None");
     }
     kani::cover!(i as usize == N - 1 && r1 == Some(1), "last position");
-    kani::cover!(N > 8 && i >= 8 && r1 == Some(2), "crosses a byte boundary");
+    if N > 8 {
+        kani::cover!(i >= 8 && r1 == Some(2), "crosses a byte boundary");
+    }
     core::mem::forget(rs);
 }
 
@@ -119,7 +121,9 @@ pub fn wavelet<const N: usize>() {
         q += 1;
     }
     assert!(wm.rank(c, p as u64) == want, "C17: WaveletMatrix::rank differs from naive count");
-    kani::cover!(want >= 2, "symbol occurs at least twice in the prefix");
+    if N >= 2 {
+        kani::cover!(want >= 2, "symbol occurs at least twice in the prefix");
+    }
     kani::cover!(want == 0, "symbol absent from the prefix");
     core::mem::forget(wm);
 }
@@ -149,3 +153,7 @@ inst!(c17_wavelet_n1, 10, wavelet::<1>());
 inst!(c17_wavelet_n3, 10, wavelet::<3>());
 inst!(c17_wavelet_n5, 10, wavelet::<5>());
 inst!(c17_wavelet_n6, 10, wavelet::<6>());
+inst!(c17_select_n16_k1, 19, select::<16, 1>());
+inst!(c17_select_n17_k1, 20, select::<17, 1>());
+inst!(c17_select_n24_k1, 27, select::<24, 1>());
+inst!(c17_wavelet_n2, 10, wavelet::<2>());
